@@ -667,7 +667,7 @@ def execData' (m : Module) (fr : Frame) (s : Core) (instrStart : Nat) (op : Opc)
   | .TYPE_CHECK => let (s, v) := s.pop; cont ((s.push (.bool (v.tag == arg 0))).release v)
   | .CLOSURE_NEW =>
     let n := arg 1
-    let (s, caps) := if n ≥ 32768 then (s, List.replicate n Val.void) else s.popN n
+    let (s, caps) := if n ≥ 32769 then (s, List.replicate n Val.void) else s.popN n   -- the loop index is (int16_t)(n - 1)
     let (h, a) := s.heap.alloc (.clos (arg 0) caps)
     cont ({ s with heap := h }.push (.clos a))
   | .PRINT | .PRINTLN =>
